@@ -185,7 +185,7 @@ static void switch_to(Fiber* next) {
 }
 
 // who waits for what: written into the trace when a run ends in a livelock, so a replay shows the cycle
-static void trace_waiters() {
+void trace_waiters() {
     for (auto& up : K.fibers) {
         if (up->st != Fiber::Blocked) continue;
         if (up->deadline == INT64_MAX) tracef("  blocked without deadline: p%d f%d %s", up->pid, up->id, up->name.c_str());
@@ -270,9 +270,11 @@ void preempt_point() {
         K.stats.step_limit = true;
         abort_run("step limit exceeded (livelock?)");
     }
-    if (K.knobs.deschedule_per_65536 && K.cur && K.rng.below(65536) < K.knobs.deschedule_per_65536) {
+    if (K.cur && K.cur->points_since_descheduled < (1u << 30)) ++K.cur->points_since_descheduled;
+    if (K.knobs.deschedule_per_65536 && K.cur && K.cur->points_since_descheduled >= K.knobs.deschedule_min_gap && K.rng.below(65536) < K.knobs.deschedule_per_65536) {
         // long preemption: the fiber stays runnable in principle but does not get the processor for a while
         Fiber* self = K.cur;
+        self->points_since_descheduled = 0;
         ++K.stats.descheduled;
         self->st = Fiber::Blocked;
         self->pred = nullptr;
@@ -435,12 +437,15 @@ void set_heartbeat(std::function<void()> fn) { g_heartbeat = std::move(fn); }
 void set_deschedule_after_unlock(std::uint32_t per_65536, std::int64_t max_ns) {
     if (!detail::sim()) return;
     detail::K.knobs.deschedule_after_unlock_per_65536 = per_65536;
+    detail::K.knobs.deschedule_min_gap = per_65536 ? 0 : Knobs{}.deschedule_min_gap;
     if (max_ns > 0) detail::K.knobs.deschedule_max_ns = max_ns;
 }
 
+void trace_blocked() { if (detail::sim()) detail::trace_waiters(); }
 void set_deschedule(std::uint32_t per_65536, std::int64_t max_ns) {
     if (!detail::sim()) return;
     detail::K.knobs.deschedule_per_65536 = per_65536;
+    detail::K.knobs.deschedule_min_gap = per_65536 ? 0 : Knobs{}.deschedule_min_gap;
     if (max_ns > 0) detail::K.knobs.deschedule_max_ns = max_ns;
 }
 namespace detail { void heartbeat_tick() { if ((K.stats.steps & 0x3fff) == 0 && g_heartbeat) g_heartbeat(); } }
@@ -842,8 +847,9 @@ int pthread_mutex_unlock(pthread_mutex_t* m) {
     if (__tsan_release) __tsan_release(m);
     bool released = false;
     if (--it->second.depth <= 0) { K.mutexes.erase(it); released = true; }
-    if (released && K.knobs.deschedule_after_unlock_per_65536 && K.cur && K.rng.below(65536) < K.knobs.deschedule_after_unlock_per_65536) {
+    if (released && K.knobs.deschedule_after_unlock_per_65536 && K.cur && K.cur->points_since_descheduled >= K.knobs.deschedule_min_gap && K.rng.below(65536) < K.knobs.deschedule_after_unlock_per_65536) {
         Fiber* self = K.cur;
+        self->points_since_descheduled = 0;
         unpoison_fiber(self);
         ++K.stats.descheduled_after_unlock;
         self->st = Fiber::Blocked;
